@@ -132,10 +132,10 @@ func c14a(c *Ctx) {
 	}
 	emptyProof := g.EdgesImplying(func(a Atom) bool { rel, ok := cmpRel(a, isLenProof, isZero); return ok && rel == relEQ })
 	for _, cs := range []struct {
-		name   string
-		zero   bool
-		safe   map[Edge]bool
-		msg    string
+		name string
+		zero bool
+		safe map[Edge]bool
+		msg  string
 	}{
 		{"old != 0 => consistency proof verified", false, ctOK, "a non-empty recorded tree can be replaced without a verified consistency proof"},
 		{"old == 0 => empty proof", true, emptyProof, "for an empty recorded tree a non-empty proof is accepted"},
